@@ -47,6 +47,9 @@ def gen_dname(rng, used, auto_bat=False):
     for _ in range(300):
         if auto_bat and rng.random() < 0.05:
             name, ext = rng.choice(["auto", "AUTO", "Auto"]), rng.choice(["bat", "BAT"])
+        elif used and rng.random() < 0.12:
+            # a base name already taken on this side, with another extension (GAME.BAS then GAME.BIN): distinct 8.3 names
+            name, ext = rng.choice(sorted(used))[0].lower(), rng.choice(DEXTS)
         elif rng.random() < 0.06:
             # whole names that spell an extension or a special name of the documentation, with any extension or none
             name, ext = rng.choice(["bas", "BAS", "bin", "Bin", "txt", "TXT", "bat", "auto", "AUTO", "dat", "a"]), rng.choice(["", "", "", "bas", "bat", "txt", "a"])
